@@ -302,6 +302,10 @@ def main():
     elif prop == "C03":
         import crules_c03
         crules_c03.run(ast, fns, consts, macros, cf, ob, OBS)
+    elif prop == "C19":
+        import crules_c03
+        crules_c03.compute_key_params(fns)
+        crules_c03.key_hygiene(fns, cf, ob)
     json.dump({"obligations": OBS, "functions": sorted(fns.keys())}, sys.stdout)
 
 if __name__ == "__main__":
